@@ -1369,8 +1369,9 @@ def elemsize(repo, schema=None, sites=None):
 
 
 def nullorder(repo):
-    """R-NULLORDER (C14): "Null" is a valid byte order exactly when no multi-unit value is ever read: the field is a single
-    *atomic* unit, or its (array element / own) base type is one unit wide.  For an array the field's total size says
+    """R-NULLORDER (C14): "Null" is a valid byte order exactly when no multi-unit value is ever read: a non-array field of
+    known size is one unit long (its type does not matter: an anonymous `bits` may be smaller than its field, and the back
+    end reads the whole field), an array's element type / a run-time sized field's type is one unit wide.  For an array the field's total size says
     nothing -- `0 [+1] UInt:16[] z` reads 16-bit elements through a NullByteOrderer (static_assert in the runtime).
     _field_may_have_null_byte_order is evaluated over the abstract facts (is array, field size == 1, base type size ==
     unit) and compared with that specification for all eight combinations."""
@@ -1396,7 +1397,7 @@ def nullorder(repo):
         if isinstance(e, ast.Call) and (call_name(e) or "").endswith("is_array"):
             return env["array"]
         if isinstance(e, ast.Call) and (call_name(e) or "").endswith("is_constant") and "location.size" in t:
-            return True
+            return env["const"]
         if isinstance(e, ast.Compare) and len(e.ops) == 1 and isinstance(e.ops[0], ast.Eq):
             if "constant_value" in t and "location.size" in t and isinstance(e.comparators[0], ast.Constant) and e.comparators[0].value == 1:
                 return env["one"]
@@ -1421,15 +1422,20 @@ def nullorder(repo):
                 raise AnalysisError(f"_field_may_have_null_byte_order: statement `{ast.unparse(st)[:60]}` not understood")
         return None
 
-    for array, one, elem in itertools.product((False, True), repeat=3):
+    for array, const, one, elem in itertools.product((False, True), repeat=4):
+        if one and not const:
+            continue  # "size == 1" is only known for a constant size
         res.instances += 1
-        got = run(f.node.body, {"array": array, "one": one, "elem": elem})
-        want = (not array and one) or elem
+        got = run(f.node.body, {"array": array, "const": const, "one": one, "elem": elem})
+        # a non-array field is read as a whole: its own size decides when it is known (an anonymous `bits` may be
+        # smaller than its field); arrays and run-time sized fields are judged by the (element) type
+        want = one if (not array and const) else elem
         if bool(got) != want:
-            res.add(f"{ATTRIBUTE_CHECKER}|_field_may_have_null_byte_order|{int(array)}{int(one)}{int(elem)}",
-                    f"_field_may_have_null_byte_order answers {got} for {'an array' if array else 'an atomic'} field whose size is "
-                    f"{'1' if one else 'not 1'} unit and whose base type is {'one unit' if elem else 'wider than one unit'}; specified: {want} "
-                    "(`0 [+1] UInt:16[] z` must need a byte order)", ATTRIBUTE_CHECKER, f.node.lineno, f.name)
+            res.add(f"{ATTRIBUTE_CHECKER}|_field_may_have_null_byte_order|{int(array)}{int(const)}{int(one)}{int(elem)}",
+                    f"_field_may_have_null_byte_order answers {got} for {'an array' if array else 'a non-array'} field whose size is "
+                    f"{('1' if one else 'a constant other than 1') if const else 'not constant'} and whose base type is "
+                    f"{'one unit' if elem else 'wider than one unit'}; specified: {want} "
+                    "(`0 [+1] UInt:16[] z` and `0 [+2] bits:` with 8 bits of members must need a byte order)", ATTRIBUTE_CHECKER, f.node.lineno, f.name)
     res.analysed = [ATTRIBUTE_CHECKER]
     return res
 
